@@ -57,3 +57,24 @@ build_ = build_harness
 
 def build(name, variant, sources, **kw):  # noqa: shadowing is intentional for callers: harness.build(...)
     return build_harness(name, variant, sources, **kw)
+
+
+def build_fuzz(name, sources, variant="fz", libs=("Dec",)):
+    """libFuzzer target linked against the static, fuzzer-instrumented archives of `variant`."""
+    info = _b.ensure(variant)
+    v = _b.VARIANTS[variant]
+    hdir = os.path.join(_b.BUILD_ROOT, variant, "harness")
+    os.makedirs(hdir, exist_ok=True)
+    exe = os.path.join(hdir, name)
+    srcs = [s if os.path.isabs(s) else os.path.join(W, s) for s in sources]
+    archives = [os.path.join(info["bin"], "libSvtAv1%s.a" % l) for l in libs]
+    if os.path.exists(exe) and all(os.path.getmtime(d) <= os.path.getmtime(exe) for d in srcs + archives if os.path.exists(d)):
+        return exe
+    san = ["-fsanitize=fuzzer,address", "-fsanitize=" + _b.UBSAN, "-fno-sanitize-recover=all", "-fno-omit-frame-pointer"]
+    cmd = [v["cxx"], "-std=gnu++17", "-O1", "-g", "-D%s=1" % _b.GUARD] + san + ["-I" + os.path.join(_b.REPO, "Source", "API"), "-I" + W] + srcs + \
+          ["-Wl,--start-group"] + archives + ["-Wl,--end-group", "-lpthread", "-lm", "-o", exe]
+    log = open(os.path.join(hdir, name + ".log"), "w")
+    r = subprocess.run(cmd, stdout=log, stderr=subprocess.STDOUT)
+    if r.returncode != 0:
+        raise _b.BuildFailed("fuzz target %s failed to build (see %s)" % (name, os.path.join(hdir, name + ".log")))
+    return exe
